@@ -1,0 +1,75 @@
+//go:build verif
+
+package s3mem
+
+import (
+	"fmt"
+
+	"github.com/johannesboyne/gofakes3"
+)
+
+// VerifInvariants walks every bucket under the backend's own lock and returns
+// a description of every broken structural invariant. Only available in builds
+// with the "verif" tag.
+func (db *Backend) VerifInvariants() (broken []string) {
+	db.lock.RLock()
+	defer db.lock.RUnlock()
+	seenIDs := map[gofakes3.VersionID]string{}
+	for bname, b := range db.buckets {
+		if b.name != bname {
+			broken = append(broken, fmt.Sprintf("bucket %q stored under name %q", b.name, bname))
+		}
+		prevKey, first := "", true
+		for it := b.objects.Iterator(); it.Next(); {
+			key := it.Key().(string)
+			obj := it.Value().(*bucketObject)
+			if !first && !(prevKey < key) {
+				broken = append(broken, fmt.Sprintf("%s: keys out of order: %q then %q", bname, prevKey, key))
+			}
+			prevKey, first = key, false
+			if obj.name != key {
+				broken = append(broken, fmt.Sprintf("%s/%s: object named %q", bname, key, obj.name))
+			}
+			if obj.data == nil {
+				broken = append(broken, fmt.Sprintf("%s/%s: object without a current version", bname, key))
+				continue
+			}
+			check := func(d *bucketData, where string) {
+				if d.name != key {
+					broken = append(broken, fmt.Sprintf("%s/%s: %s version named %q", bname, key, where, d.name))
+				}
+				if d.versionID == "" {
+					broken = append(broken, fmt.Sprintf("%s/%s: %s version without an id", bname, key, where))
+				}
+				id := bname + "/" + key
+				if other, dup := seenIDs[d.versionID]; dup {
+					broken = append(broken, fmt.Sprintf("version id %s used by %s and %s", d.versionID, other, id))
+				}
+				seenIDs[d.versionID] = id
+				if !d.deleteMarker && len(d.hash) != 16 {
+					broken = append(broken, fmt.Sprintf("%s/%s: %s version with a %d-byte hash", bname, key, where, len(d.hash)))
+				}
+			}
+			check(obj.data, "current")
+			if obj.versions != nil {
+				var prev gofakes3.VersionID
+				for vit := obj.versions.Iterator(); vit.Next(); {
+					vid := vit.Key().(gofakes3.VersionID)
+					d := vit.Value().(*bucketData)
+					if d.versionID != vid {
+						broken = append(broken, fmt.Sprintf("%s/%s: version %s indexed under %s", bname, key, d.versionID, vid))
+					}
+					if prev != "" && !(prev < vid) {
+						broken = append(broken, fmt.Sprintf("%s/%s: archived versions out of order", bname, key))
+					}
+					prev = vid
+					if !(vid < obj.data.versionID) {
+						broken = append(broken, fmt.Sprintf("%s/%s: archived version %s is not older than the current version %s", bname, key, vid, obj.data.versionID))
+					}
+					check(d, "archived")
+				}
+			}
+		}
+	}
+	return broken
+}
